@@ -1,6 +1,10 @@
 """C13 / C20: issue construction contracts."""
 from pv.contract import contract, class_fields, CLASS_INV
 
+# The contracts of ErrorFinder methods below are for an object that is exactly an ErrorFinder (what Grammar.iter_errors
+# builds from ErrorFinderConfig): self.add_issue is ErrorFinder.add_issue, not the override of PEP8Normalizer (which may
+# drop an issue).  EF_DISPATCH states that for the frame check; props/C13.py lists it among the assumptions.
+EF_DISPATCH = {'add_issue': ['parso.python.errors.ErrorFinder.add_issue']}
 class_fields('Normalizer', issues='list:ref:Issue')
 class_fields('ErrorFinder', issues='list:ref:Issue', _error_dict='map:int:any')
 
@@ -21,11 +25,24 @@ contract('parso.python.errors.ErrorFinder.add_issue',
                   'implies(l in self._error_dict, self._error_dict[l] == old(self._error_dict[l]))))'],
          modifies=['_error_dict', '$maps'], theories=['tree', 'treepos'], props=['C13'])
 contract('parso.python.errors.ErrorFinder._add_syntax_error',
-         params={'self': 'ref:ErrorFinder', 'node': 'ref', 'message': 'str'}, requires=['node is not None'],
-         modifies=['issues', '_error_dict', '$maps'], lists='*', props=['C13'])
+         params={'self': 'ref:ErrorFinder', 'node': 'ref:NodeOrLeaf', 'message': 'str'}, requires=['node is not None'],
+         ensures=['spos(node)[0] in self._error_dict'], frame_dispatch=EF_DISPATCH,
+         modifies=['_error_dict', '$maps'], theories=['tree', 'treepos'], props=['C13'])
 contract('parso.python.errors.ErrorFinder._add_indentation_error',
-         params={'self': 'ref:ErrorFinder', 'spacing': 'ref', 'message': 'str'}, requires=['spacing is not None'],
-         modifies=['issues', '_error_dict', '$maps'], lists='*', props=['C13'])
+         params={'self': 'ref:ErrorFinder', 'spacing': 'ref:PrefixPart', 'message': 'str'}, requires=['spacing is not None'],
+         ensures=['spacing.start_pos[0] in self._error_dict'],
+         call_keys={'parso.python.errors.ErrorFinder.add_issue': 'parso.python.errors.ErrorFinder.add_issue#part'},
+         frame_dispatch=EF_DISPATCH, modifies=['_error_dict', '$maps'], props=['C13'])
+# the same body for a prefix part (duck typing: anything with start_pos): its line is the key
+contract('parso.python.errors.ErrorFinder.add_issue#part',
+         params={'self': 'ref:ErrorFinder', 'node': 'ref:PrefixPart', 'code': 'int', 'message': 'str'},
+         requires=['(code == 901 and message.startswith("SyntaxError: ")) or '
+                   '(code == 903 and message.startswith("IndentationError: "))',
+                   'node is not None', 'self._error_dict is not None'],
+         ensures=['node.start_pos[0] in self._error_dict',
+                  'forall(lambda l: implies(l != node.start_pos[0], (l in self._error_dict) == old(l in self._error_dict) and '
+                  'implies(l in self._error_dict, self._error_dict[l] == old(self._error_dict[l]))))'],
+         modifies=['_error_dict', '$maps'], props=['C13'])
 
 # an Issue copies its range from the node it is given
 contract('parso.normalizer.Issue.__init__',
@@ -46,3 +63,22 @@ contract('parso.normalizer.Normalizer.add_issue',
          ensures=['forall(lambda i, j: implies(0 <= i and i < j and j < len(self.issues), '
                   'not (self.issues[i].code == self.issues[j].code and self.issues[i].start_pos == self.issues[j].start_pos)))'],
          modifies=['issues'], lists=['self.issues'], props=['C20'])
+
+
+# ---- coverage (C13: every error leaf produces an issue on its line): ErrorFinder.visit_leaf on an error leaf that is not an
+# indentation pseudo token files a syntax error for the leaf's own line and returns '' (nothing of it is re-emitted)
+class_fields('ErrorFinder', version='pos')
+class_fields('TokenCollection', always_break_tokens='any')
+contract('parso.python.tokenize._get_token_collection', params={'version_info': 'pos'}, returns='ref:TokenCollection',
+         trusted=True, ensures=['result is not None'], lists=[],
+         note='memoised table of compiled patterns per version; only its non-nullness and an opaque membership test are used')
+contract('parso.python.errors.ErrorFinder.visit_leaf#error_leaf', params={'self': 'ref:ErrorFinder', 'leaf': 'ref:ErrorLeaf'},
+         returns='str',
+         requires=['leaf is not None', 'leaf.type == "error_leaf"', 'not (leaf.token_type in ("INDENT", "ERROR_DEDENT"))'],
+         ensures=['result == ""', 'spos(leaf)[0] in self._error_dict'], frame_dispatch=EF_DISPATCH,
+         # the frame check is path-insensitive: the branches for other leaves (context bookkeeping at ':', the rule-based
+         # super().visit_leaf) are excluded by the precondition and shown unreachable by the VC (all exits return '')
+         frame_prune={'add_context': 'only on the branch leaf.value == ":" (excluded by the precondition)',
+                      'visit_leaf': 'super().visit_leaf is only reached for non-error leaves (excluded by the precondition)'},
+         frame_assumed={'context': 'written only on the branch leaf.value == ":" (excluded by the precondition)'},
+         modifies=['_error_dict', '$maps', '_token_collection_cache'], theories=['tree', 'treepos'], props=['C13'])
